@@ -99,6 +99,7 @@ static Plan gen_c05(uint64_t seed, const std::string &tier) {
     else if (oc == 1) { size_t n = r.chance(1, 2) ? (size_t)r.range(4080, 4100) : (size_t)r.range(1, 200); w.env.push_back("PATHPART=" + std::string(n, 'p')); s.output = "file:/log/%{env:PATHPART}"; }
     else s.output = "file:/log/out";
     p.ops.push_back(op_setconfig(s.render(r, true)));
+    if (r.chance(1, 3)) p.ops.push_back(op_exec(e));   // not the first exec of the process: the same limits hold for every call
     p.ops.push_back(op_exec(e));
     p.extra.set("vals", vals);
     return p;
@@ -485,6 +486,29 @@ static Plan gen_c12(uint64_t seed, const std::string &tier) {
         p.ops.push_back(op_setconfig(s.render(r, true)));
         ExecOp e; e.path = "/bin/x"; e.argv = {"x"}; p.ops.push_back(op_exec(e));
     }
+    // "at the time of the call": the state of a process changes while it lives - it drops privileges, changes directory, loses its parent,
+    // detaches from the terminal - and a later exec of the same process has to report the new state
+    if (r.chance(1, 2)) {
+        World w2 = w; int nchg = (int)r.range(1, 3);
+        for (int i = 0; i < nchg; i++) switch (r.below(8)) {
+        case 0: std::swap(w2.uid, w2.euid); if (w2.uid == w2.euid) w2.uid = w2.uid ? 0 : 1000; break;
+        case 1: std::swap(w2.gid, w2.egid); if (w2.gid == w2.egid) w2.gid = w2.gid ? 0 : 100; break;
+        case 2: if (w2.procs.size() >= 3 && w2.procs.back().pid == 1) { w2.procs.erase(w2.procs.begin() + 1); w2.procs[0].ppid = 1; w2.ppid = 1; } break;   // the parent exited: re-parented to init
+        case 3: w2.cwd = "/moved/" + gen_token(r, 1, 12, 0); w2.cwd_errno = 0; break;
+        case 4: w2.hostname = "renamed-" + gen_token(r, 1, 8, 0); break;
+        case 5: w2.tty_state = (w2.tty_state + 1) % 3; break;
+        case 6: w2.sid = w2.pid; break;
+        default: if (!w2.environ_null) { if (!w2.env.empty() && r.chance(1, 2)) w2.env.erase(w2.env.begin()); else w2.env.push_back("ADDED_LATER=1"); } break;
+        }
+        J a = w.to_json(), b = w2.to_json(); Op m; m.op = "Mutate"; m.patch = J::obj();
+        for (auto &kv : b.o) { const J *old = a.find(kv.first); if (kv.first != "files" && kv.first != "socks" && (!old || old->dump() != kv.second.dump())) m.patch.set(kv.first, kv.second); }
+        if (!m.patch.o.empty()) {
+            p.ops.push_back(m);
+            std::vector<Op> again; for (auto &o : p.ops) if (o.op == "SetConfig" || o.op == "Exec") again.push_back(o);
+            for (auto &o : again) p.ops.push_back(o);
+            p.extra.set("state_changes", true);
+        }
+    }
     return p;
 }
 static Verdict oracle_c12(const Plan &p, const RunResult &r) {
@@ -514,6 +538,7 @@ static void describe_c12(const Plan &p, const RunResult &r, J &line) {
     if (w.tty_state == 1) line.set("p_ebadf", true);
     if (w.cwd_errno) line.set("p_deleted_cwd", true);
     if (w.at_secure) line.set("p_secure_exec_mode", true);
+    if (p.extra.getb("state_changes")) line.set("p_state_changes_between_calls", true);
     if (w.ppid == 1 || w.ppid == 0) line.set("p_child_of_init", true);
     for (auto &e : w.env) if (e.compare(0, 3, "TZ=") == 0 && e != "TZ=UTC") line.set("p_tz_non_utc", true);
 }
